@@ -86,8 +86,16 @@ func reach0(fn *ssa.Function, from ssa.Instruction, target, avoid instrPred, cut
 			}
 		}
 		for _, succ := range succs {
-			if cut != nil && cut(s.b, succ) {
-				continue
+			if cut != nil {
+				saved := edgeCtx
+				if sensitive {
+					edgeCtx.pred, edgeCtx.blk = s.p, s.b
+				}
+				isCut := cut(s.b, succ)
+				edgeCtx = saved
+				if isCut {
+					continue
+				}
 			}
 			k := key{s.b, succ}
 			if !sensitive {
